@@ -55,7 +55,7 @@ func diffExtremal(expr string, doc map[string]any) {
 
 // H_C02_funcs: each function template over JSON documents.
 func H_C02_funcs() {
-	vrtSpec(2, 1, 2, "x", smASCII, nfInt|nfDot|nfFrac, 0)
+	vrtSpec(tq(2, 3), 1, tq(2, 3), "x", smASCII, nfInt|nfDot|nfFrac, 0)
 	vrtNumRange(-3, 3)
 	k := vrtChoose("fn", len(fnTemplates))
 	t := fnTemplates[k]
@@ -134,7 +134,7 @@ func H_C02_arity() {
 // H_C02_ints: integer-valued parameters in every spelling (1, 1.0, 1e0) and
 // non-integral / negative values.
 func H_C02_ints() {
-	vrtSpec(2, 1, 3, "x", smASCII, nfInt|nfDot|nfExp|nfFrac, 0)
+	vrtSpec(tq(2, 3), 1, tq(3, 4), "x", smASCII, nfInt|nfDot|nfExp|nfFrac, 0)
 	vrtNumRange(-2, 5)
 	exprs := []string{"pad_left(a, c)", "pad_right(a, c, b)", "split(a, b, c)", "replace(a, b, 'zz', c)", "find_first(a, b, c)", "find_first(a, b, c, d)", "find_last(a, b, c, d)", "find_last(a, b, c)"}
 	k := vrtChoose("expr", len(exprs))
